@@ -44,11 +44,15 @@ class DType(object):
         self.itemsize = {'f': 8, 'c': 16, 'i': 8, 'b': 1, 'O': 8}.get(kind, 8)
 
     def __eq__(self, o):
+        from .absint import NumType
+        if isinstance(o, NumType):
+            return o.__eq__(self)
         return isinstance(o, DType) and o.kind == self.kind or (o is float and self.kind == 'f') or \
             (o is complex and self.kind == 'c') or (o is int and self.kind == 'i')
 
     def __hash__(self):
-        return hash(self.kind)
+        from .absint import TYPE_HASH
+        return TYPE_HASH
 
     def __repr__(self):
         return 'dtype(%s)' % self.name
